@@ -528,6 +528,8 @@ def run_symbolic(fn, repo, eager=False, cert_backends=("z3",), max_paths=MAX_PAT
         except TimeoutError:
             raise
         except Exception as e:      # noqa: BLE001
+            if "TimeoutError: obligation exceeded its time budget" in str(e):
+                raise TimeoutError(str(e))
             # an exception raised BY THE REPOSITORY CODE (innermost frame in the repository tree) where the obligation
             # expected a normal return is an observation (failed goal); anything else is a checker error
             import traceback
